@@ -41,6 +41,9 @@ Proof. intros inp s l H. destruct H. split; assumption. Qed.
 Lemma CInv_log_inv : forall inp s l, CInv inp (cset_log s l) -> CInv inp s.
 Proof. intros inp s l H. destruct H. split; assumption. Qed.
 
+Lemma CInv_restart : forall inp s, CInv inp s -> CInv inp (crestart s).
+Proof. intros inp s H. destruct H. split; assumption. Qed.
+
 Lemma CInv_init : CInv [] cinit.
 Proof.
   split; try (intros; discriminate); try (intros; contradiction).
